@@ -272,6 +272,13 @@ class MultiEmbeddingTensor(_MultiTensor):
                     raise RuntimeError(
                         "num_cols must be the same across a list of input "
                         "multi embedding tensors.")
+                # The result reuses the offset of the first input, so every
+                # input must cut its columns at the same positions.
+                if not torch.equal(x.offset.cpu(), xs[0].offset.cpu()):
+                    raise RuntimeError(
+                        "The embedding dimension of each column must be the "
+                        "same across a list of input multi embedding "
+                        "tensors.")
             values = torch.cat([x.values for x in xs], dim=0)
             # NOTE: offset shares the same data with the input's offset,
             # which is inconsistent with when dim=1
